@@ -3,6 +3,7 @@ from ..poly import Sym, mk_func
 from .. import poly
 from ..interp import (Interp, Hooks, Opaque, Str, Slot, Const, Cmp, NotC, State, TRUE, FALSE)
 from ..model import AnalysisError
+from .. import purity
 
 ENTITIES = {'&': {'&amp;', '&#38;', '&#x26;'}, '<': {'&lt;', '&#60;', '&#x3c;', '&#x3C;'},
             '>': {'&gt;', '&#62;', '&#x3e;', '&#x3E;'}, '"': {'&quot;', '&#34;', '&#x22;'},
@@ -246,6 +247,7 @@ def run(ck, prog, tier):
                        'format spec .3f prints to the millisecond']
     ck.trusted += ['python ast module', 'vf.interp abstract interpreter', 'XML 1.0 section 4.6 '
                    'entity table transcribed in vf/props/c20.py']
+    purity.check(ck, prog, ['text_utils.xml_escape', 'text_utils.format_hms'], 'C20-R-pure')
     chain, found, loc = check_escape(ck, prog)
     ck.saw('escape_chain', chain)
     ck.sample({'escape_chain': chain})
